@@ -71,7 +71,10 @@ def _ops(kind, labels):
         st.tuples(st.just("observe")),
     ]
     if kind in ("PCBO", "PCSO"):
-        ops.append(st.tuples(st.just("derive"), st.sampled_from(["subs", "round"])))
+        # derived models: subs() / round() and out-of-place arithmetic or the copy constructor - the result still
+        # contains the ancillas of its source, so it has to keep counting where the source stopped
+        ops.append(st.tuples(st.just("derive"), st.sampled_from(["subs", "round", "mul2", "rmul3", "neg", "add1", "rsub1",
+                                                                  "ctor", "div2"])))
         cons = st.tuples(st.just("constraint"), st.sampled_from(RELS), cpoly,
                          st.sampled_from([0.5, 1, 2]), st.booleans())
         ops += [cons, cons, cons]
@@ -412,8 +415,14 @@ def _run(spec, rec, qv):
             before = ref.canon(dict(M), spin)
             if op[1] == "subs":
                 D = lib(M.subs, {}, what="subs")
-            else:
+            elif op[1] == "round":
                 D = lib(round, M, 6, what="round")
+            else:
+                D = lib({"mul2": lambda: M * 2, "rmul3": lambda: 3 * M, "neg": lambda: -M, "add1": lambda: M + 1,
+                         "rsub1": lambda: 1 - M, "ctor": lambda: type(M)(M), "div2": lambda: M / 2}[op[1]],
+                        what="derive:" + op[1])
+                if D is M:
+                    raise Violation("derive_returned_receiver/%s" % op[1], "out-of-place operation returned its receiver")
             if type(D) is not type(M):
                 raise Violation("derive_type/%s" % op[1], "%s -> %s" % (type(M).__name__, type(D).__name__))
             if op[1] == "subs" and ref.canon(dict(D), spin) != before:   # rounding may legitimately change values
